@@ -189,6 +189,9 @@ func cmdAPI(args []string) {
 			}
 			r.Call("get-sync-status", nil, &ss)
 			committed := r.DBSynced()
+			if committed < -1 {
+				feasible = false // the database could not be read: no observation
+			}
 			g.open()
 			eq := finish(r, cH)
 			emit(map[string]interface{}{"ev": "ApiExp", "schedule": "sync-status-before-commit", "h": cH, "feasible": feasible,
@@ -265,6 +268,9 @@ func cmdAPI(args []string) {
 			}
 			r.Call("get-sync-status", nil, &ss)
 			committed := r.DBSynced()
+			if committed < -1 {
+				feasible = false // the database could not be read: no observation
+			}
 			g.open()
 			eq := finish(r, cH)
 			fmu.Lock()
@@ -446,7 +452,8 @@ func cmdAPI(args []string) {
 							Sync int64 `json:"syncheight"`
 						}
 						if code, err := r.Call("get-sync-status", nil, &ss); err == nil && code == 0 {
-							if ss.Sync > r.DBSynced() { // read after the answer: committed can only have grown
+							// read after the answer: committed can only have grown (-2 = the database could not be read: no observation)
+							if db := r.DBSynced(); db >= -1 && ss.Sync > db {
 								atomic.AddInt64(&early, 1)
 							}
 						}
